@@ -25,8 +25,8 @@ McLat ==
     /\ LET ref == <<RZero, <<1, 4>>, ROne>>
            f == FOf(Ev.f, 1)
            want == Integral(f, ref)
-           tol == IF Ev.exactWeights = 1 THEN (IF Ev.T = "float" THEN 64 ELSE 8) ELSE 8 * ((Len(Ev.ks) * 1048576) \div Ev.Ms)
-       IN /\ (Ev.exactWeights = 1) => McExact([i \in 1 .. Len(Ev.ks) |-> <<RZero, <<Ev.ks[i], 4>>, ROne>>], Ev.w, f, ref, Ev.Mu, Ev.Ms)
+           tol == IF Ev.T = "float" THEN 64 ELSE 8
+       IN /\ (Ev.exactWeights = 1 /\ Ev.recompute = 1) => McExact([i \in 1 .. Len(Ev.ks) |-> <<RZero, <<Ev.ks[i], 4>>, ROne>>], Ev.w, f, ref, Ev.Mu, Ev.Ms)
           /\ Near(Ev.value, 1048576, want, tol)
     /\ l' = l + 1
 \* adapted grids: 1 and x_k are integrated exactly to rounding (deviation in units of 64 eps)
